@@ -88,6 +88,8 @@ Definition read_content (st : rstate) (length_z : Z) (encoding indent line_endin
       match split_lines content newline true with
       | Err e => CExc e
       | Ok lines =>
+        (* the raw content must itself end with the newline (checked before indentation is stripped) *)
+        if negb (bends newline content) then CParse ln else
         let content1 :=
           match indent with
           | Some (VInt z) =>
